@@ -2,3 +2,4 @@ pub mod canon;
 pub mod fast;
 pub mod tt;
 pub mod dotread;
+pub mod table;
